@@ -2128,10 +2128,11 @@ func (a *Agent) TaskPrepare(Command int, Info any, Message *map[string]string, C
 
 				}
 
-				/* remove the socks server from the array */
-				a.SocksSvr = append(a.SocksSvr[:i], a.SocksSvr[i+1:]...)
-
 			}
+
+			/* remove every socks server from the array (after the loop: removing while
+			 * ranging over the original length indexes out of range with two or more) */
+			a.SocksSvr = nil
 
 			a.SocksSvrMtx.Unlock()
 
